@@ -17,5 +17,11 @@ TRUSTED = ["as C01"]
 ASSUMPTIONS = ["effects are calls of the tracing function t interned in a scratch namespace"]
 # F-02: hoisting hazard. Signature: the model's hazard predicate fires (tag 1) -- and the verdict
 # logic additionally requires the implementation's trace to equal the model's.
-FINDINGS = {"F-02": lambda c, o, tag: tag == 1}
+FINDINGS = {
+    "F-02": lambda c, o, tag: bool(tag & 1),
+    "F-02c": lambda c, o, tag: bool(tag & 16),
+    "F-01a": lambda c, o, tag: bool(tag & 2),
+    "F-01c": lambda c, o, tag: bool(tag & 4),
+    "F-01d": lambda c, o, tag: bool(tag & 8),
+}
 cases = _c.cases
